@@ -122,6 +122,9 @@ func genOp(r *rng, re int, p *pat, allowLong bool) Op {
 	case OpReplaceFuncReentrant:
 		op.Repl = repls[r.n(len(repls))]
 		op.In2 = genInput(r, p, false)
+	case OpMarshalRoundTrip:
+		op.Repl = repls[r.n(len(repls))]
+		op.StartAt = r.n(6)
 	case OpWalkMixed:
 		op.Repl = repls[r.n(len(repls))]
 		op.In2 = genInput(r, p, false)
